@@ -952,6 +952,7 @@ package go9p
 // Facts and field classes used by the framework contracts
 
 //@ fact Akaros != nil
+//@ fact io.EOF != nil
 
 //@ immutable Srv.ops by (*Srv).Start
 //@ immutable Srv.Upool by (*Srv).Start
@@ -1111,3 +1112,113 @@ package go9p
 //@ iface AuthOps.AuthCheck(op, fid, afid, aname) (err)
 //@   ensures  errwf(err)
 //@   assigns  everything
+
+// ---------------------------------------------------------------------------
+// C14: file data through the client. The remote file is an oracle: fsize(fid) bytes fbyte(fid, 0..).
+// The contract of (*Clnt).Read is the end-to-end statement about the server and the transport (assumed here;
+// its server half is the contract of Ufs.Read, its codec half is C01); the File helpers are proved on top of it.
+
+//@ rec fsize(fid int) int
+//@   axiom forall f int {fsize(f)} :: fsize(f) >= 0
+//@ rec fbyte(fid int, i int) int
+
+//@ pure remaining(fid, off) = max(0, fsize(fid) - off)
+//@ pure chunk(fid, off, want) = min(min(want, fid.Iounit), remaining(fid, off))
+
+//@ func (*Clnt).Read(clnt, fid, offset, count) (data, err)
+//@   property C14
+//@   trusted reply to Tread carries min(count, iounit, remaining) bytes of the file at that offset (server contract + codec + transport)
+//@   requires clnt != nil && fid != nil
+//@   ensures  err == nil ==> len(data) == chunk(fid, offset, count) && forall k int :: 0 <= k && k < len(data) ==> data[k] == fbyte(fid, offset + k)
+//@   ensures  errwf(err) && err != io.EOF
+//@   assigns  fresh
+
+//@ func (*File).ReadAt(file, buf, offset) (n, err)
+//@   property C14
+//@   requires file != nil && file.Fid != nil && file.Fid.Clnt != nil && offset >= 0 && len(buf) <= 4294967295
+//@   ensures  err == nil ==> n == chunk(file.Fid, offset, len(buf)) && n > 0 && forall k int :: 0 <= k && k < n ==> buf[k] == fbyte(file.Fid, offset + k)
+//@   ensures  err != nil ==> n == 0
+//@   ensures  err == io.EOF ==> chunk(file.Fid, offset, len(buf)) == 0
+//@   ensures  file.Fid == old(file.Fid) && file.Fid.Iounit == old(file.Fid.Iounit) && file.offset == old(file.offset)
+//@   assigns  elems(buf)
+
+//@ func (*File).Read(file, buf) (n, err)
+//@   property C14
+//@   requires file != nil && file.Fid != nil && file.Fid.Clnt != nil && file.offset <= 9223372036854775807 && len(buf) <= 4294967295
+//@   ensures  err == nil ==> n == chunk(file.Fid, old(file.offset), len(buf)) && file.offset == old(file.offset) + n
+//@   ensures  err == nil ==> forall k int :: 0 <= k && k < n ==> buf[k] == fbyte(file.Fid, old(file.offset) + k)
+//@   ensures  err != nil ==> file.offset == old(file.offset) && n == 0
+//@   assigns  elems(buf), file.offset
+
+//@ func (*File).Readn(file, buf, offset) (ret, err)
+//@   property C14
+//@   requires file != nil && file.Fid != nil && file.Fid.Clnt != nil && file.Fid.Iounit > 0
+//@   requires offset + len(buf) <= 9223372036854775807 && len(buf) <= 4294967295
+//@   ensures  err == nil ==> ret == min(len(buf), remaining(file.Fid, offset))
+//@   ensures  err == nil ==> forall k int :: 0 <= k && k < ret ==> buf[k] == fbyte(file.Fid, offset + k)
+//@   assigns  elems(buf)
+//@   loop 1
+//@     invariant 0 <= ret && ret <= len(old(buf)) && buf == old(buf)[ret:] && offset == old(offset) + ret
+//@     invariant file.Fid == old(file.Fid) && file.Fid.Iounit == old(file.Fid.Iounit) && file.Fid.Clnt != nil
+//@     invariant ret <= remaining(file.Fid, old(offset))
+//@     invariant forall k int :: 0 <= k && k < ret ==> old(buf)[k] == fbyte(file.Fid, old(offset) + k)
+//@     invariant mem_unchanged_except(old(buf), 0, len(old(buf)))
+
+//@ func (*Clnt).NewFcall(clnt) (fc)
+//@   property C14 C09
+//@   trusted the free list (tchan) holds only non-nil Fcalls (FreeFcall checks before sending)
+//@   requires clnt != nil
+//@   ensures  fc != nil
+//@   assigns  fresh
+
+//@ func (*Clnt).Rpc(clnt, tc) (rc, err)
+//@   property C09 C14
+//@   trusted the reply delivered to a call is a decoded Fcall (proved separately for recv: C09); request/reply matching is not re-proved here
+//@   requires clnt != nil && tc != nil
+//@   ensures  err == nil ==> rc != nil
+//@   ensures  errwf(err)
+//@   assigns  everything
+
+//@ func (*Clnt).ReqAlloc(clnt) (req)
+//@   property C09 C14
+//@   trusted the request free list (reqchan) holds only non-nil requests
+//@   requires clnt != nil
+//@   ensures  req != nil
+//@   assigns  everything
+
+//@ func (*Clnt).Write(clnt, fid, data, offset) (n, err)
+//@   property C14
+//@   trusted a conforming server writes a prefix of the data at the offset and reports its length (server contract + codec + transport)
+//@   requires clnt != nil && fid != nil && len(data) <= 4294967265
+//@   at call(PackTwrite) assume obj(arg4) != obj(arg0.Buf)
+//@   ensures  err == nil ==> 0 <= n && n <= len(data) && n <= fid.Iounit
+//@   ensures  err != nil ==> n == 0
+//@   ensures  errwf(err)
+//@   assigns  fresh
+
+//@ func (*File).WriteAt(file, buf, offset) (n, err)
+//@   property C14
+//@   requires file != nil && file.Fid != nil && file.Fid.Clnt != nil && offset >= 0 && len(buf) <= 4294967265
+//@   ensures  err == nil ==> 0 <= n && n <= len(buf) && n <= file.Fid.Iounit
+//@   ensures  err != nil ==> n == 0
+//@   ensures  file.Fid == old(file.Fid) && file.offset == old(file.offset) && file.Fid.Clnt == old(file.Fid.Clnt)
+//@   at call((*Clnt).Write) requires [args] arg1 == file.Fid && arg2 == buf && arg3 == offset
+//@   assigns  fresh
+
+//@ func (*File).Write(file, buf) (n, err)
+//@   property C14
+//@   requires file != nil && file.Fid != nil && file.Fid.Clnt != nil && file.offset <= 9223372036854775807 && len(buf) <= 4294967265
+//@   ensures  err == nil ==> 0 <= n && n <= len(buf) && file.offset == wrap64(old(file.offset) + n)
+//@   ensures  err != nil ==> file.offset == old(file.offset)
+//@   at call((*File).WriteAt) requires [args] arg1 == buf && arg2 == old(file.offset)
+//@   assigns  file.offset
+
+//@ func (*File).Written(file, buf, offset) (ret, err)
+//@   property C14
+//@   requires file != nil && file.Fid != nil && file.Fid.Clnt != nil && offset + len(buf) <= 9223372036854775807 && len(buf) <= 4294967265
+//@   ensures  0 <= ret && ret <= len(buf)
+//@   at call((*File).WriteAt) requires [args] arg1 == old(buf)[ret:] && arg2 == old(offset) + ret
+//@   assigns  nothing
+//@   loop 1
+//@     invariant 0 <= ret && ret <= len(old(buf)) && buf == old(buf)[ret:] && offset == old(offset) + ret
+//@     invariant file.Fid != nil && file.Fid.Clnt != nil
